@@ -28,6 +28,10 @@ references denote nothing: the harness resolves them before the rules reach the 
 theorem C09_derivative_correct (r : Regex) (w : List Int) :
     Lang noExt r w ↔ nullable (derivs r w) = true := (matchesB_iff r w).symm
 
+/-- The head normal form applied after every derivative step (by `scanSpec` and by the validator, to keep
+the derivative paired with a DFA state unique) does not change the language. -/
+theorem C09_norm_correct (r : Regex) (w : List Int) : Lang noExt (norm r) w ↔ Lang noExt r w := L_norm r w
+
 /-- `emptyB` decides emptiness of the language exactly; with derivatives: a prefix `u` can be extended to a
 word of `r` iff `emptyB (derivs r u) = false`. -/
 theorem C09_emptiness_correct (r : Regex) (u : List Int) :
